@@ -328,6 +328,50 @@ def run(R):
                     probs.append('not every key of the identity is deleted')
         resets = [n for n in cx.cfg.nodes if n.kind == 'stmt' and isinstance(n.ast, ast.Assign) and any(ast.unparse(t) == 'self._signer_cache' for t in n.ast.targets)] + \
                  [n for (n, c) in calls_in_ctx(cx, attr='clear') if ast.unparse(c.func.value) == 'self._signer_cache']
+        # a reset is `= {}` / `dict()` / `.clear()`; a *selective* invalidation must compare like with like: the cache key holds encoded
+        # names (bytes), so a filter that compares a key element with a component list never removes anything
+        def kind(cx_, node_, e_):
+            t_ = ast.unparse(e_)
+            if isinstance(e_, ast.Call) and (t_.startswith('Name.to_bytes(') or t_.startswith('bytes(')):
+                return 'bytes'
+            if isinstance(e_, ast.Call) and (t_.startswith('Name.normalize(') or t_.startswith('Name.from_str(') or t_.startswith('list(')):
+                return 'components'
+            if isinstance(e_, ast.Subscript) and isinstance(e_.slice, ast.Slice):
+                return kind(cx_, node_, e_.value)
+            if isinstance(e_, ast.Name):
+                ks = {kind(s_.ctx, s_.node, s_.expr) if s_.kind == 'expr' else None for s_ in cx_.sources(node_, e_)}
+                return ks.pop() if len(ks) == 1 else None
+            return None
+        gsx = ctx(R, f'{KM}.KeychainSqlite3.get_signer')
+        key_kinds = None
+        for n_ in gsx.cfg.nodes:
+            if n_.kind == 'stmt' and isinstance(n_.ast, ast.Assign) and any(isinstance(t_, ast.Subscript) and ast.unparse(t_.value) == 'self._signer_cache' for t_ in n_.ast.targets):
+                sl = [t_ for t_ in n_.ast.targets if isinstance(t_, ast.Subscript)][0].slice
+                for s_ in gsx.sources(n_, sl):
+                    if s_.kind == 'expr' and isinstance(s_.expr, ast.Tuple):
+                        key_kinds = [kind(s_.ctx, s_.node, e_) for e_ in s_.expr.elts]
+        for r_ in list(resets):
+            v_ = r_.ast.value if r_.kind == 'stmt' and isinstance(r_.ast, ast.Assign) else None
+            if v_ is None or (isinstance(v_, ast.Dict) and not v_.keys) or (isinstance(v_, ast.Call) and ast.unparse(v_.func) == 'dict' and not v_.args):
+                continue
+            if isinstance(v_, ast.DictComp) and len(v_.generators) == 1 and 'self._signer_cache' in ast.unparse(v_.generators[0].iter):
+                kv = v_.generators[0].target.elts[0].id if isinstance(v_.generators[0].target, ast.Tuple) and isinstance(v_.generators[0].target.elts[0], ast.Name) else None
+                decided = False
+                for c_ in [x for cnd in v_.generators[0].ifs for x in ast.walk(cnd) if isinstance(x, ast.Compare) and len(x.ops) == 1]:
+                    sides = [c_.left, c_.comparators[0]]
+                    ke = [x for x in sides if isinstance(x, ast.Subscript) and isinstance(x.value, ast.Name) and x.value.id == kv and isinstance(x.slice, ast.Constant)]
+                    ot = [x for x in sides if x not in ke]
+                    if len(ke) == 1 and len(ot) == 1 and key_kinds and ke[0].slice.value < len(key_kinds):
+                        k1, k2 = key_kinds[ke[0].slice.value], kind(cx, r_, ot[0])
+                        if k1 and k2:
+                            decided = True
+                            if k1 != k2:
+                                probs.append(f'the selective invalidation `{ast.unparse(c_)}` compares a cache-key element ({k1}) with a value of another '
+                                             f'representation ({k2}): it never matches, so the signer of the deleted key stays cached')
+                if not decided:
+                    raise AnalysisError(f'{q}: selective signer-cache invalidation `{ast.unparse(v_)[:80]}` cannot be decided')
+            else:
+                raise AnalysisError(f'{q}: signer cache assigned `{ast.unparse(v_)[:80]}`: neither a reset nor a recognised filter')
         if not resets:
             probs.append('the signer cache is not reset: a signer of the deleted key can still be handed out')
         else:
@@ -369,6 +413,12 @@ def run(R):
                                 body = ast.unparse(h.ast)
                                 if re.search(r'(?i)DELETE FROM %s' % ins.table, body) and any(isinstance(x, ast.Raise) for x in ast.walk(h.ast)):
                                     comp = True
+                                    # the step touches the database, the private-key store (files) and the encoder: the clean-up must run for
+                                    # any failure, not for one family of exceptions
+                                    hn = P.handler_names(cx.f.mod, h.ast) if h.ast.type is not None else ['BaseException']
+                                    if not any(x in ('Exception', 'BaseException') for x in hn):
+                                        probs.append((f'the clean-up runs only for {sorted(hn)}: a failure of another kind in {qq.rsplit(".", 1)[1]}() (an OSError from '
+                                                      'the private-key store, an encoding error) leaves the half-created entry behind', h.ast))
                                     # the failed step may have left uncommitted rows: they must be rolled back before the handler commits
                                     hcalls = [x for x in ast.walk(h.ast) if isinstance(x, ast.Call) and isinstance(x.func, ast.Attribute)]
                                     names_ = [x.func.attr for x in sorted(hcalls, key=lambda x: (x.lineno, x.col_offset))]
